@@ -597,8 +597,23 @@ func (ip *Interp) JoinVal(a, b Val) Val {
 			return x
 		}
 	case *Top:
-		if y, ok := b.(*Top); ok && x.Key != "" && x.Key == y.Key {
+		if y, ok := b.(*Top); ok && x.Key != "" && x.Key == y.Key && x.NilIf == nil && y.NilIf == nil {
 			return x
+		}
+		// nil on one side and non-nil on the other of a named branch
+		if y, ok := b.(*Top); ok && ip.gateExact {
+			nx, ny := ip.nilness(x), ip.nilness(y)
+			if g := ip.In.Conds[ip.gate]; g != nil && nx != TriTop && ny != TriTop && nx != ny {
+				c := *g
+				c.K = TriTop
+				// x comes from the true side unless swapped; the value is nil on x's side iff nx
+				c.Neg = (nx == TriF) != ip.gateSwap
+				t := x.T
+				if t == nil {
+					t = y.T
+				}
+				return &Top{T: t, Key: "ite[" + ip.gate + "](" + x.Key + "|" + y.Key + ")", NilIf: &c}
+			}
 		}
 		return &Top{T: x.T}
 	case *Slot:
